@@ -34,6 +34,10 @@ RULE = ("text over an alphabet dense in & < > \" ' ; # % + = and entity/percent 
         "non-trivial = the input contains at least one character the helper must transform "
         "(special character, reference, non-unreserved byte, '</', non-ASCII, '&'/'=' in a query); distinct by canonical JSON")
 EXHAUSTIVE = {"quick": False, "thorough": False}
+CLAUSE_CAVEATS = [
+    'qs_bytes_preserved quantifies over canonical quote_plus encodings (pure ASCII); raw bytes ≥ 0x80 in the query string are covered by the tie streams only',
+    'json.dumps/json.loads and recursive_unicode are tie-only',
+]
 CLAUSES = {
     "HTML-escaping yields text with no < > quote apostrophe and no & outside the entities it introduced": "escape_safe",
     "... and unescapes back to the input": "unescape_escape (every string, every table containing the five entities); unescape_escape_bytes (bytes input, and the escaped "
